@@ -215,7 +215,8 @@ pub fn apply(dir: &Path, fault: &Fault, versions: &Versions) -> Option<Applied> 
                 && (blank
                     || (bytes.len() < before.len()
                         && before.starts_with(bytes)
-                        && bytes.last() == Some(&b'\n')));
+                        // cut after a whole record: right after its newline, or right before it
+                        && (bytes.last() == Some(&b'\n') || before.get(bytes.len()) == Some(&b'\n'))));
             (changed, stale)
         }
     };
